@@ -42,7 +42,22 @@ type Report struct {
 	Analysed  map[string]int // what was analysed: functions, call sites, paths, states...
 	Notes     []string
 	seen      map[string]bool
+	only      map[string]bool // when set, the rules this property owns; others are dropped
 }
+
+// restrict limits the report to the given rules (generators emit whole rule
+// families; a property keeps the rules it owns).
+func (r *Report) restrict(rules []string) {
+	if len(rules) == 0 {
+		return
+	}
+	r.only = map[string]bool{"framework": true, "anchor": true}
+	for _, id := range rules {
+		r.only[id] = true
+	}
+}
+
+func (r *Report) wants(rule string) bool { return r.only == nil || r.only[rule] }
 
 func newReport(prop, tier string) *Report {
 	return &Report{Prop: prop, Tier: tier, Rules: map[string]*RuleInfo{}, Analysed: map[string]int{}, seen: map[string]bool{}}
@@ -50,7 +65,7 @@ func newReport(prop, tier string) *Report {
 
 // Rule declares a rule with the minimum number of instances confirmed by hand.
 func (r *Report) Rule(id, engine, doc string, min int) {
-	if _, ok := r.Rules[id]; ok {
+	if _, ok := r.Rules[id]; ok || !r.wants(id) {
 		return
 	}
 	r.Rules[id] = &RuleInfo{ID: id, Doc: doc, Engine: engine, Min: min}
@@ -58,6 +73,9 @@ func (r *Report) Rule(id, engine, doc string, min int) {
 }
 
 func (r *Report) add(o *Oblig) {
+	if !r.wants(o.Rule) {
+		return
+	}
 	id := o.Rule + "|" + o.Key
 	if r.seen[id] {
 		// Same rule+construct reported twice: keep the worst verdict.
@@ -146,6 +164,11 @@ func (r *Report) finish(verifDir string, chk *PropCheck, start time.Time, seed i
 	known, err := loadKnown(verifDir)
 	if err != nil {
 		r.Fail("framework", "known_findings", "", err.Error())
+	}
+	for _, id := range chk.Rules {
+		if _, ok := r.Rules[id]; !ok {
+			r.Fail("framework", "rule-missing:"+id, "", "rule "+id+" is owned by this property but no generator declared it")
+		}
 	}
 	// Instance minimums: a rule that matches fewer sites than confirmed by hand fails.
 	for _, id := range r.ruleOrder {
